@@ -2,6 +2,7 @@ package models
 
 import (
 	"fmt"
+	"math"
 	"strings"
 )
 
@@ -105,6 +106,12 @@ func convertToVector(v any) ([]float32, error) {
 	return vector, nil
 }
 
+// Whether a decoded number is a whole number that fits an int64, the
+// conversion of anything else silently stores another number.
+func isInt64(v float64) bool {
+	return v == math.Trunc(v) && v >= -9223372036854775808.0 && v < 9223372036854775808.0
+}
+
 // Check if a given map is compatible with the index schema
 func (s IndexSchema) CheckCompatibleMap(pointMap PointAsMap) error {
 	// We will go through each index field, check if the map has them, is of
@@ -206,8 +213,14 @@ func (s IndexSchema) CheckCompatibleMap(pointMap PointAsMap) error {
 			// any number as float64. So you give it say 42, and it gives
 			// you back float64(42)
 			case float32:
+				if !isInt64(float64(v)) {
+					return fmt.Errorf("expected integer number for property %s, got %v", k, v)
+				}
 				m[k] = int64(v)
 			case float64:
+				if !isInt64(v) {
+					return fmt.Errorf("expected integer number for property %s, got %v", k, v)
+				}
 				m[k] = int64(v)
 			// We are not supporting uint64 because it won't fit in int64
 			// case uint64:
